@@ -321,20 +321,39 @@ func (ir *ifdReader) fastRead(n int) (buf []byte, err error) {
 		ir.po += uint32(n)
 		return
 	}
-	if n < 0 || n > len(ir.buffer.buf) {
+	if n < 0 || n > maxValueLength {
 		return nil, bufio.ErrBufferFull
 	}
-	// a Reader may return fewer bytes than asked for; read until the value is complete
-	n, err = io.ReadFull(ir.reader, ir.buffer.buf[:n])
-	ir.po += uint32(n)
+	dst := ir.buffer.buf[:]
+	head := 0
+	if n > len(dst) {
+		// longer than the scratch buffer, within the window a buffered reader offers: the value
+		// gets a buffer of its own, so that every path reports the same values. The buffer is
+		// made only once the first scratch-full of the value has really arrived.
+		head, err = io.ReadFull(ir.reader, dst)
+		ir.po += uint32(head)
+		if err == nil {
+			dst = append(make([]byte, 0, n), dst...)[:n]
+		}
+	}
+	if err == nil {
+		// a Reader may return fewer bytes than asked for; read until the value is complete
+		var m int
+		m, err = io.ReadFull(ir.reader, dst[head:n])
+		ir.po += uint32(m)
+	}
 	if err != nil {
 		if ir.logLevelError() {
 			ir.logError(err).Msg("Read error")
 		}
 		return nil, err
 	}
-	return ir.buffer.buf[:n], nil
+	return dst[:n], nil
 }
+
+// maxValueLength is the longest value read when the source is not a buffered reader: the size
+// of the window the buffered readers in use (4 KiB) offer to Peek.
+const maxValueLength = 4096
 
 // ReadUint16 reads a uint16 from an ifdReader.
 func (ir *ifdReader) readUint16(ifd ifds.Ifd) (uint16, error) {
